@@ -1030,6 +1030,32 @@ class Interp:
             self.fail('C04', 'flag_wrong', f'dispatch_enabled reads '
                       f'{self.d.dispatch_enabled}, expected {self.enabled}')
 
+    def teardown(self):
+        """The program drops the dispatcher together with every handler:
+        after a collection none of them may be alive (a dispatcher that is
+        a handler of itself - every World - is reachable only from itself
+        then)."""
+        refs = {}
+        for s, o in self.handlers.items():
+            try:
+                refs[f'h{s}'] = weakref.ref(o)
+            except TypeError:
+                pass
+        refs['dispatcher'] = weakref.ref(self.d)
+        self.handlers.clear()
+        self.d = o = None
+        self.dstack.clear()
+        self.cbstack.clear()
+        gc.collect()
+        self.probes['teardown_checked'] += 1
+        alive = sorted(k for k, r in refs.items() if r() is not None)
+        if alive:
+            return Violation(('C10',), 'kept_alive', f'after the program '
+                             f'dropped the dispatcher and all handlers and '
+                             f'ran a collection, still alive: '
+                             f'{", ".join(alive[:6])}').to_json()
+        return None
+
     def nontrivial(self):
         p, pr, f = self.prop, self.probes, self.faults
         if p == 'C03':
@@ -1066,6 +1092,8 @@ def execute(scenario, prop, tolerate=frozenset()):
         sys.unraisablehook = old_hook
     it.stats['steps'] = kernel.StepBudget.total - s0
     it.closed = True
+    if violation is None and prop == 'C10' and it.cfg.get('teardown'):
+        violation = it.teardown()
     it.handlers.clear()
     return {'violation': violation, 'digest': it.trace.digest(),
             'nontrivial': it.nontrivial(), 'probes': dict(it.probes),
@@ -1144,6 +1172,9 @@ def gen_config(prop, rng, allow_base2=False):
         cfg['cyclic'] = [s for s in range(n) if rng.random() < .15]
         if dkind == 'world':
             cfg['weak_slots'] = [s for s in range(n) if rng.random() < .6]
+        if rng.random() < .3:
+            # at the end the program drops the dispatcher and every handler
+            cfg['teardown'] = True
     return cfg
 
 
